@@ -127,7 +127,7 @@ fn run(ctx: &Ctx, rep: &Report) {
         }
     };
     let exe = std::env::current_exe().unwrap();
-    let n: u64 = ctx.tier.pick(40, 3000);
+    let n: u64 = ctx.tier.pick(120, 3000);
     let reps_in = ctx.tier.pick(5, 6);
     let reps_proc = ctx.tier.pick(3, 4);
     let base = ctx.work_dir("builds");
@@ -162,7 +162,13 @@ fn run(ctx: &Ctx, rep: &Report) {
         let mut local: BTreeMap<String, u64> = BTreeMap::new();
         for r in 0..reps_in {
             rep.eval(1);
-            match guard(|| build_existing(&cfg, &src, key)) {
+            // odd repetitions run on a freshly spawned thread (thread-local state must not matter)
+            let built = if r % 2 == 1 {
+                std::thread::scope(|sc| sc.spawn(|| guard(|| build_existing(&cfg, &src, key))).join()).unwrap_or_else(|_| Ok(Err("builder thread died".to_string())))
+            } else {
+                guard(|| build_existing(&cfg, &src, key))
+            };
+            match built {
                 Ok(Ok(b)) => {
                     outputs.entry(sha256_hex(&b)).or_insert(format!("in-process build #{r}"));
                     if first.is_none() {
@@ -196,7 +202,17 @@ fn run(ctx: &Ctx, rep: &Report) {
             if let Some(k) = key {
                 cmd.arg(k.name);
             }
-            cmd.current_dir(cwd).env("TZ", tz).env("LANG", ["C", "de_DE.UTF-8", "ja_JP.UTF-8", "tr_TR"][r % 4]).env("C11_NOISE", format!("{}", rng.next())).stdout(std::process::Stdio::null()).stderr(std::process::Stdio::null());
+            cmd.current_dir(cwd)
+                .env("TZ", tz)
+                .env("LANG", ["C", "de_DE.UTF-8", "ja_JP.UTF-8", "tr_TR"][r % 4])
+                .env("LC_ALL", ["C", "de_DE.UTF-8", "ja_JP.UTF-8", "tr_TR"][r % 4])
+                .env("HOME", ["/root", "/tmp", "/nonexistent", "/"][r % 4])
+                .env("USER", ["root", "builder", "nobody", ""][r % 4])
+                .env("LOGNAME", ["root", "builder", "nobody", ""][r % 4])
+                .env("HOSTNAME", ["host-a", "host-b.example.org", "", "localhost"][r % 4])
+                .env("TMPDIR", ["/tmp", "/var/tmp", "/tmp", "/dev/shm"][r % 4])
+                .env("SOURCE_DATE_EPOCH", ["0", "1", "4000000000", "x"][r % 4])
+                .env("C11_NOISE", format!("{}", rng.next())).stdout(std::process::Stdio::null()).stderr(std::process::Stdio::null());
             match cmd.status() {
                 Ok(st) if st.success() => match std::fs::read_to_string(&out) {
                     Ok(line) if line.starts_with("ok ") => {
